@@ -110,15 +110,18 @@ def build(tier: str) -> List[Cond]:
                         sym.append(("swap", "bool"))
                     if op == "span":
                         sym += [("i", "int"), ("j", "int")]; pre.append(f"0 <= i <= j <= {L}")
-                    conds.append(Cond(oid=f"wrappers/{op}/{seq}/mods={npos}/glob={int(glob)}", clause="module-level reverse/shift/shuffle/sort/span_to_sequence/split = the annotation method, for object and string input; input unchanged",
-                                      module="vf.h.c11", func="o_wrappers", shape=dict(seq=seq, npos=npos, glob=glob, op=op), sym=sym, pre=pre, timeout=t,
+                    for isplit in (range(L + 1) if (op == "span" and glob and L >= 3) else (None,)):      # case split keeps the condition small
+                      conds.append(Cond(oid=f"wrappers/{op}/{seq}/mods={npos}/glob={int(glob)}" + (f"/i={isplit}" if isplit is not None else ""), clause="module-level reverse/shift/shuffle/sort/span_to_sequence/split = the annotation method, for object and string input; input unchanged",
+                                      module="vf.h.c11", func="o_wrappers", shape=dict(seq=seq, npos=npos, glob=glob, op=op), sym=sym,
+                                      pre=pre + ([f"i == {isplit}"] if isplit is not None else []), timeout=t,
                                       functions=["sequence_funcs." + {"span": "span_to_sequence", "count": "count_residues"}.get(op, op)],
                                       bounds=f"len {L}; input form, positions and the operation's parameter symbolic"))
     return conds
 
 
 def run(tier: str, seed: int, only=None) -> Report:
-    conds = build(tier)
+    from ..ch import tier_conds
+    conds = tier_conds(build, tier, cap=900)
     if only:
         conds = [c for c in conds if only in c.oid]
     rep = Report(
